@@ -178,6 +178,10 @@ def install_base_metrics_stubs():
         _installed["bm"] = (bm.skm, bm.np)
         bm.skm = SkmStub(bm.skm)
         bm.np = NpStub(np)
+    # every other metrics module gets the proxy-aware predicates too (isfinite / isnan / isclose on a proxy raise in numpy itself)
+    for name, mod in list(sys.modules.items()):
+        if name.startswith("fairlearn.metrics.") and getattr(mod, "np", None) is np:
+            mod.np = NpStub(np)
     return bm
 
 
